@@ -334,8 +334,9 @@ func (l *Lexer) Next() (token.Token, error) {
 func (l *Lexer) readChar() {
 	// Return if we are already at the end of the input. Note that
 	// when position == len(l.characters) the current character is
-	// considered to be EOF, so that position is considered valid.
-	if l.position > len(l.characters) {
+	// considered to be EOF, so that position is considered valid. It is
+	// the last valid position: the lexer never moves beyond it.
+	if l.position >= len(l.characters) {
 		return
 	}
 
